@@ -500,9 +500,12 @@ pub fn outputs_cmd(path: &Path, i: usize) -> i32 {
     0
 }
 
-fn child_outputs(path: &Path, i: usize) -> Result<Vec<(u64, String)>, String> {
+fn child_outputs(path: &Path, i: usize, execution: usize) -> Result<Vec<(u64, String)>, String> {
+    use std::os::unix::process::CommandExt;
     let exe = std::env::current_exe().map_err(|e| e.to_string())?;
     let out = std::process::Command::new(exe)
+        // the k-th execution runs under the k-th program name (argv[0])
+        .arg0(coord::PROGRAM_NAMES[execution % coord::PROGRAM_NAMES.len()])
         .args(["outputs", &path.display().to_string(), &i.to_string()])
         .stdin(std::process::Stdio::null())
         .output()
@@ -532,7 +535,7 @@ pub fn xproc_compare(path: &Path) -> Result<Option<Violation>, String> {
     // for some address-space layouts must not slip through a single lucky pair
     for k in 0..n * XPROC_REPEATS {
         let i = k % n;
-        let outs = child_outputs(path, i)?;
+        let outs = child_outputs(path, i, k)?;
         match &first {
             None => first = Some(outs),
             Some(f) => {
